@@ -228,7 +228,7 @@ CLAIMS['C20'] = {
             'exactly when there is none) and keeps the queue length; an EMPTY queue counts as unpatched (-32601); the only '
             'exceptions that escape a request are those a patch callback raised. Frame: container contents only, no '
             'attribute of any pre-existing object.',
-    'note': 'not under contract: remove(), reset(), _on_request (pass-through / refusal of unpatched endpoints, '
+    'note': 'under contract for UNPATCHED endpoints only: _on_request (exactly one pass-through call with the same arguments and its answer returned unchanged, or ConnectionRefusedError, as configured; an endpoint with an empty patch map counts as unpatched). Not under contract: remove(), reset(), the patched branches of _on_request (pass-through / refusal of unpatched endpoints, '
             'element-wise batches), start/stop patching. Assumed: the mocking package (MagicMock returns a new callable mock; '
             'calling it only records), callbacks may raise; representation invariant of the mocker (the outer map, the '
             'per-endpoint maps and the call records are distinct objects; stored queues are non-empty lists of well-formed '
